@@ -53,6 +53,10 @@ Definition allow : list allowed := [
     "dispatch table mnemonic -> function, filled at import by module-level stores only; no store through it inside any function (CStore RGlobal entries would show)";
   mkAllowed "MIP/mip/blocks.py" "<module>" "bid = BIDClass()"
     "constant block-id table (attributes m t c s d set in __init__ only); only read";
+  mkAllowed "MIP/mip/main.py" "Card.content" "@card_debugger"
+    "card_debugger (same file) wraps the method in a try/except that prints the card and re-raises; the closure holds no mutable state";
+  mkAllowed "MIP/mip/main.py" "Card.parts" "@card_debugger"
+    "as above";
   mkAllowed "MIP/mip/main.py" "Card.__init__" "default []"
     "never used (Card is always built with lines=...) and self.lines is only read"
 ].
